@@ -19,21 +19,14 @@ from sa.defuse import Inliner
 from sa.model import norm
 from sa.polyalg import AlgebraError
 from sa import torsion as TA
+from sa import circle as CI
 
 T1, T2, AN = "tertiary", "tertiary_v2", "annotator"
 EPS_MAX = 1e-3
 
 
-def check_function(chk, module: str, qual: str) -> None:
-    repo = chk.repo
-    fi = repo.func(module, qual)
-    chk.note_function(fi)
-    fold = Folder(repo, module)
-    try:
-        res = TA.analyse(fi.node, fold.fold)
-    except AlgebraError as ex:
-        chk.error("torsion-closed-form", fi.where, f"function body is outside the straight-line vector algebra: {ex}")
-        return
+def closed_form_verdict(chk, fi, res, module: str, qual: str) -> None:
+    """One plain atan2(y, x): y / x against the IUPAC ratio, as polynomials."""
     ok = res["same_ratio"] and res["x_positive_multiple"]
     if res["negated_ratio"] and res["x_positive_multiple"]:
         why = "y/x is the exact negation of the IUPAC ratio (x a positive multiple of x_ref): the function returns -phi"
@@ -53,6 +46,83 @@ def check_function(chk, module: str, qual: str) -> None:
         expected="atan2(|b2| b1.(b2 x b3), (b1 x b2).(b2 x b3))",
         found={k: res[k] for k in ("same_ratio", "negated_ratio", "x_positive_multiple", "x_negative_multiple")},
     )
+
+
+def circle_verdict(chk, fi, res, module: str, qual: str) -> None:
+    """The angle is made by something else than one plain atan2 (acos with a sign, copysign, a conditional, two atan2 ...): the
+    value returned is decided on every cell of the circle (sa/circle.py) and must be phi on all of them - including phi = 0 and
+    phi = pi, where the sine term vanishes, and phi = +-pi/2, where the cosine term does."""
+    cells = res["cells"]
+    site = fi.site(res["first"])
+    first_txt = norm(res["first"])[:90]
+    not_angle = [o for _, _, o in cells if o[0] == "not-angle"]
+    undecided = [(c, o) for c, _, o in cells if o[0] == "undecided"]
+    key = f"{module}:{qual}:closed-form"
+    if not_angle:
+        chk.violation("torsion-closed-form", site, f"{qual}: {not_angle[0][1]}", key, expected="phi on the whole circle (-pi, pi]")
+        return
+    if undecided:
+        c, o = undecided[0]
+        chk.error("torsion-closed-form", site, f"the value returned for {c[0]} cannot be decided on the partition of the circle: {o[1]}")
+        return
+    val = lambda c, o: CI.value_at(o[1], c) if o[0] == "value" else o[1]
+    wrong = [(c, g, o) for c, g, o in cells if not (o[0] == "value" and CI.is_phi(o[1], c))]
+    table = {c[0]: val(c, o) for c, _, o in cells}
+    if not wrong:
+        chk.ok("torsion-closed-form", site, f"from `{first_txt}` on, the function is evaluated symbolically on the {len(cells)} cells of the circle (phi = 0, pi/2, pi, -pi/2 and the four open quadrants; sine / cosine terms identified by polynomial identities, {res['norm_atoms']} norm atoms): it returns phi on every cell, i.e. the IUPAC dihedral on the whole of (-pi, pi]")
+        chk.ok("torsion-returned", fi.where, "the whole-circle reading covers every statement up to the return: the value is in radians and unchanged")
+        return
+    # -phi everywhere (pi = -pi as angles)?
+    negated = all(o[0] == "value" and (CI.is_phi(o[1], c, -1) or (c[1] == c[2] and abs(c[1]) == 1 and CI.is_phi(o[1], c, 1))) for c, _, o in cells)
+    if negated:
+        chk.violation("torsion-closed-form", site, f"{qual}: the function returns -phi on every cell of the circle (mirror-image sign convention)", f"{module}:{qual}:sign", expected="phi", found=table)
+        return
+    names = [c[0] for c, _, _ in wrong]
+    if all(o[0] == "value" and o[1].deg for _, _, o in wrong):
+        hint = "the value is converted to degrees before it is returned: the torsion functions return radians"
+    elif all(n in ("phi = 0", "phi = pi") for n in names):
+        hint = "the value is lost where the sine term vanishes: a closed form has to give phi at the ends of the half circles too (phi = pi is the closed end of (-pi, pi]), not only where the sine has a sign"
+    elif all(n in ("phi = pi/2", "phi = -pi/2") for n in names):
+        hint = "the value is lost where the cosine term vanishes"
+    elif all(c[1] < 0 or c[2] < 0 for c, _, _ in wrong):
+        hint = "the sign of the sine term does not reach the result: negative angles are wrong"
+    else:
+        hint = "the combination of the sine and cosine terms is not the angle of the point (cos phi, sin phi)"
+    shown = []
+    for c, g, o in wrong[:3]:
+        notes = ("; ".join(o[2][:3])) if len(o) > 2 and o[2] else ""
+        shown.append(f"for {c[0]}{' (' + g + ')' if g else ''} it returns {val(c, o)}" + (f" [{notes}]" if notes else ""))
+    chk.violation(
+        "torsion-closed-form",
+        site,
+        f"{qual} does not return phi on the whole circle (-pi, pi]: " + "; ".join(shown) + f"; phi is returned on {len(cells) - len(wrong)} of the {len(cells)} cells. {hint[0].upper() + hint[1:]}",
+        key,
+        expected="phi on every cell of the circle",
+        found=table,
+    )
+
+
+def check_function(chk, module: str, qual: str) -> None:
+    repo = chk.repo
+    fi = repo.func(module, qual)
+    chk.note_function(fi)
+    fold = Folder(repo, module)
+    try:
+        res = TA.analyse(fi.node, fold.fold)
+    except TA.NotOneAtan2 as ex0:
+        # not a single plain atan2(y, x): the part from the first inverse trigonometric / sign function on is read on the whole circle
+        try:
+            res = CI.analyse_circle(fi.node, fold.fold)
+        except AlgebraError as ex:
+            chk.error("torsion-closed-form", fi.where, f"function body is outside the straight-line vector algebra: {ex} ({ex0})")
+            return
+    except AlgebraError as ex:
+        chk.error("torsion-closed-form", fi.where, f"function body is outside the straight-line vector algebra: {ex}")
+        return
+    if res.get("circle"):
+        circle_verdict(chk, fi, res, module, qual)
+    else:
+        closed_form_verdict(chk, fi, res, module, qual)
     # degenerate guards: every early return before the atan2 fires only where a cross product (or a bond) is (nearly) zero.
     # The condition is brought to facts `Q < c` (Q a monomial in norms, c folded numerically) whatever its spelling.
     for g, genv, gdefs in res["guards"]:
@@ -170,6 +240,19 @@ def check_function(chk, module: str, qual: str) -> None:
         else:
             arg_at = st
         lohi = [Folder(repo, module).try_fold(a) for a in c.args[1:3]]
+        # fact first: the clipped quantity is, as a polynomial identity, exactly cos(phi) or sin(phi) (a dot product divided by the two lengths ...)
+        top = next((t for t, _ in res.get("envs", []) if any(n is c for n in ast.walk(t))), None)
+        if top is not None and c.args and len(lohi) == 2 and all(isinstance(v, (int, float)) for v in lohi) and lohi[0] <= -1.0 and lohi[1] >= 1.0:
+            env_before = next(e for t, e in res["envs"] if t is top)
+            try:
+                leaves = res.get("leaves") or CI.Leaves(res["alg"], res["pts"])
+                q = res["alg"].ev(c.args[0], env_before)
+                v = None if isinstance(q, TA.Vec) else leaves.classify(q, norm(c.args[0]))
+            except (AlgebraError, CI.Undecided):
+                v = None
+            if isinstance(v, CI.Trig) and v.unit:
+                chk.ok("clip-noop", fi.site(c), f"the clipped quantity equals {v.text()} as a polynomial identity (|b1 x b2| |b2 x b3| times it is the {'cosine' if v.kind == 'c' else 'sine'} term): it lies in [-1, 1], the clip only removes round-off")
+                continue
         if not (isinstance(arg, ast.Call) and astq.callee_name(arg) == "dot" and len(arg.args) == 2 and lohi == [-1.0, 1.0]):
             chk.error("clip-noop", fi.site(c), f"`{norm(c)[:60]}`: clipped quantity is not a dot product clipped to [-1, 1]")
             continue
@@ -185,7 +268,8 @@ def check_function(chk, module: str, qual: str) -> None:
     # after the atan2: the value is returned unchanged (radians) on every path
     from checks import c18e
 
-    c18e.check_returned(chk, fi, res, module)
+    if not res.get("circle"):
+        c18e.check_returned(chk, fi, res, module)
 
 
 def check_users(chk) -> None:
@@ -200,6 +284,8 @@ def check_users(chk) -> None:
 
     # chi of both implementations, the torsion table of tertiary_v2 (evaluated on stub residues / segments; pinned form only as a fallback)
     c18e.check_chi(chk)
+    # the coordinates the table is computed from are the current ones (no answer remembered across a change of the frame)
+    c18e.check_lookup_current(chk)
     c03.check_cis_trans(chk)
     c11.check_bph(chk)
     # chi_class: radians against radians, evaluated on one chi per cell
@@ -229,7 +315,7 @@ def run(chk) -> None:
     )
     chk.trusted = ["CPython ast", "numpy cross/dot/norm/arctan2 semantics", "IUPAC-IUB torsion table (spec/iupac_torsions.json)"]
     chk.assumptions = ["non-degenerate input (no three consecutive points collinear)", "floating-point error is not decided"]
-    chk.robust |= {"torsion-closed-form", "clip-noop", "chi-atoms", "chi-agree", "chi-bases", "backbone-atoms", "cis-trans", "cis-trans-atoms", "bph-split", "bph-class-table", "chi-class-units", "chi-dispatch", "degenerate-guard", "torsion-returned", "torsion-wrapper", "interstem-points"}
+    chk.robust |= {"torsion-closed-form", "clip-noop", "chi-atoms", "chi-agree", "chi-bases", "backbone-atoms", "cis-trans", "cis-trans-atoms", "bph-split", "bph-class-table", "chi-class-units", "chi-dispatch", "degenerate-guard", "torsion-returned", "torsion-wrapper", "interstem-points", "lookup-current-state"}
     check_function(chk, T1, "calculate_torsion_angle_coords")
     check_function(chk, T2, "calculate_torsion_angle")
     check_users(chk)
